@@ -4,6 +4,8 @@
 use super::*;
 use num_traits::Num;
 
+pub use super::matrix_types::{MatrixShape, MatrixTriangle};
+
 pub fn gemv_n<T: FloatT>(A: &CscMatrix<T>, y: &mut [T], x: &[T], a: T, b: T) {
     A.gemv(y, x, a, b)
 }
